@@ -52,6 +52,8 @@ type FuncContract struct {
 	Params   []string // explicit parameter names for external functions
 	Requires []*Clause
 	Ensures  []*Clause
+	Defines  []*Clause // definitional postconditions: assumed at call sites, introduce a spec predicate as the post-image of the function
+	Returns  []*Clause // obligations at every return site, over the source variables in scope there
 	Modifies []*CExpr
 	ModSrc   []string
 	Invs     []*Clause
@@ -294,7 +296,7 @@ func (c *Contracts) LoadFile(path string) error {
 			c.Funcs[fc.Key] = fc
 			c.FuncOrd = append(c.FuncOrd, fc.Key)
 			cur = fc
-		case "requires", "ensures":
+		case "requires", "ensures", "returns", "defines":
 			if cur == nil {
 				c.errf(path, ln, "%s outside a function contract", word)
 				continue
@@ -310,10 +312,15 @@ func (c *Contracts) LoadFile(path string) error {
 			if cl.Name == "" {
 				cl.Name = fmt.Sprintf("L%d", ln)
 			}
-			if word == "requires" {
+			switch word {
+			case "requires":
 				cur.Requires = append(cur.Requires, cl)
-			} else {
+			case "ensures":
 				cur.Ensures = append(cur.Ensures, cl)
+			case "defines":
+				cur.Defines = append(cur.Defines, cl)
+			default:
+				cur.Returns = append(cur.Returns, cl)
 			}
 		case "modifies":
 			if cur == nil {
